@@ -422,6 +422,9 @@ def run(ctx):
         rule_writers(ctx, F, w)
         rule_w3(ctx, F, w)
         rule_p1(ctx, F)
+        # "freed exactly once": a local reference given away (released, or released by a callee on its failing return) is not touched again (shared with C07.B3)
+        import C07
+        C07.rule_b3(ctx, F)
     rule_p2(ctx, F)
     rule_t1(ctx)
     return ctx.finish(
